@@ -17,7 +17,9 @@ EXPLANATION = (
     "over unordered containers, no ordering/hashing of pointer values in library code (positive controls fire on every run); R17.5 "
     "source-guarded copy - an if inside a copy operation whose branch copies member P from the source never tests the destination's own "
     "P; R17.6 back-pointers - a raw non-owning pointer member that a copy operation on the copy path copies verbatim is re-bound to the "
-    "copy's own object later in that function, after the call in a calling function on the copy path, or by its load(owner) member. NOT "
+    "copy's own object later in that function, after the call in a calling function on the copy path, or by its load(owner) member; "
+    "R17.7 parameter state - every component member that SoPlexBase's parameter setters set (the second home of a parameter) is copied "
+    "by that component's operator= or re-applied after the copy. NOT "
     "decided: bit-identical results of two runs, which depends on the arithmetic performed.")
 
 C = M.CLS
@@ -52,6 +54,36 @@ def assigned_fields(fb, f, depth=4, seen=None):
             callee = fb.funcs.get(n.u)
         if callee is not None and depth > 0 and (callee.cls == f.cls or callee.mk == 'copyassign'):
             out |= assigned_fields(fb, callee, depth - 1, seen)
+    return out
+
+
+def governing_labels(f, n):
+    """enumerators of the outermost-switch case label(s) that govern statement n (the arm's statements are siblings of the CaseStmt)"""
+    out = set()
+    chain = [n] + list(f.ancestors(n))
+    for i, a in enumerate(chain):
+        par = a.parent
+        if a.k == 'CaseStmt':
+            c = a
+            while c is not None and c.k == 'CaseStmt':
+                for x in c.kids[0].walk():
+                    if x.k == 'DeclRefExpr' and x.dk == 'enum':
+                        out.add(x.short)
+                c = c.parent if (c.parent is not None and c.parent.k == 'CaseStmt') else None
+        if par is not None and par.k == 'CompoundStmt' and par.parent is not None and par.parent.k == 'SwitchStmt':
+            ks = par.kids
+            idx = [k.i for k in ks].index(a.i)
+            for k in reversed(ks[:idx + 1]):
+                c = k
+                found = False
+                while c is not None and c.k == 'CaseStmt':
+                    found = True
+                    for x in c.kids[0].walk():
+                        if x.k == 'DeclRefExpr' and x.dk == 'enum':
+                            out.add(x.short)
+                    c = c.kids[-1] if c.kids and c.kids[-1].k == 'CaseStmt' else None
+                if found or k.k == 'DefaultStmt':
+                    break
     return out
 
 
@@ -482,6 +514,78 @@ def run(fb, rep, tier):
                     % (sh, rhs2, sh, fd['t'].replace('soplex::', ''), ws or 'its copy operations'))
     if n_back < 4:
         raise AnalysisBroken('R17.6: only %d verbatim pointer copies found on the copy path' % n_back)
+
+    # ------------------------------------------------------------------ R17.7
+    # parameters are stored twice: in Settings and, through SoPlexBase::set{Int,Real,Bool}Param, in a member of the component that uses
+    # them (_solver.basis().setMaxUpdates(v), _slufactor.setUtype(..), _scaler->setIntParam(v), ...).  The Settings are copied, so the
+    # component's member must travel with the copy too: written by the component's operator= (directly, by a base operator= or by a copy
+    # helper that receives the source), or re-applied by SoPlexBase::operator= through the setter of that parameter.
+    rep.rule('R17.7', 'every component member that a parameter setter of SoPlexBase sets is copied by that component\'s operator= (or the parameter is re-applied after the copy)', floor=18)
+
+    def copied_fields(K, depth=0):
+        opsK = [g for g in fb.methods_of(K) if g.mk == 'copyassign']
+        if not opsK or opsK[0].implicit or depth > 3:
+            return None            # implicit member-wise assignment copies everything
+        f_ = opsK[0]
+        w_ = set(touched_fields(fb, f_, depth=0))
+        rhs_ = f_.params[0][0] if f_.params else None
+        for n_ in f_.nodes:
+            if n_.k != 'CXXMemberCallExpr':
+                continue
+            g_ = fb.funcs.get(n_.u)
+            if g_ is None:
+                continue
+            if n_.short == 'operator=':
+                r_ = copied_fields(g_.cls, depth + 1)
+                w_ |= r_ if r_ is not None else set(x['n'] for x in fb.classes.get(g_.cls, {'fields': []})['fields'])
+            elif n_.obj() is not None and n_.obj().k == 'CXXThisExpr' and any(render(strip(a_)) == rhs_ for a_ in n_.args()):
+                w_ |= set(touched_fields(fb, g_, depth=1))
+        return w_
+    psetters = [g for g in fb.methods_of(C) if g.short in ('setIntParam', 'setRealParam', 'setBoolParam') and g.nodes]
+    if len(psetters) != 3:
+        raise AnalysisBroken('the three parameter setters of SoPlexBase were not found')
+    # parameters that operator= re-applies through their setter after the copy
+    reapplied = set()
+    for n in opeq.nodes:
+        if n.k == 'CXXMemberCallExpr' and n.short in ('setIntParam', 'setRealParam', 'setBoolParam') and n.args():
+            a0 = strip(n.args()[0])
+            if a0.k == 'DeclRefExpr' and a0.dk == 'enum':
+                reapplied.add(a0.short)
+    seen7 = set()
+    n7 = 0
+    for f7 in psetters:
+        for n in f7.nodes:
+            if n.k != 'CXXMemberCallExpr' or n.obj() is None or n.obj().k == 'CXXThisExpr':
+                continue
+            o = render(n.obj())
+            root = re.sub(r'^[(*&]+', '', o)
+            labels = governing_labels(f7, n)
+            for g in fb.resolve(n):
+                if not g.name.startswith('soplex::') or g.cls == C or g.const or (o, g.name) in seen7:
+                    continue
+                seen7.add((o, g.name))
+                fields_of = {x['n']: x for x in fb.classes.get(g.cls, {'fields': []})['fields']}
+                w = set(x for x in assigned_fields(fb, g, depth=2) if x != '_tolerances' and 'Timer' not in fields_of.get(x, {'t': ''})['t'])
+                if not w:
+                    continue
+                key = '%s|%s.%s' % (f7.short, root[:30], g.name.replace('soplex::', '')[:50])
+                wh = '%s:%d' % (f7.file, n.l)
+                if root.startswith('_boosted'):
+                    rep.not_decided.append('R17.7: %s configures %s, which SoPlexBase::operator= does not copy at all (boosted-precision solver)' % (f7.short, root))
+                    continue
+                n7 += 1
+                if labels & reapplied:
+                    rep.ok('R17.7', key, wh, 'operator= re-applies %s after the copy' % sorted(labels & reapplied), nontrivial=False)
+                    continue
+                cf = copied_fields(g.cls)
+                if cf is None:
+                    rep.ok('R17.7', key, wh, '%s is assigned member-wise (implicit operator=)' % g.cls.replace('soplex::', ''), nontrivial=False)
+                    continue
+                miss = sorted(w - cf)
+                rep.check(not miss, 'R17.7', key, wh, '%s copied by %s::operator=' % (sorted(w), g.cls.replace('soplex::', '')),
+                          '%s stores the parameter in %s, but %s::operator= does not copy %s and SoPlexBase::operator= does not re-apply the parameter: the copy reports the source\'s parameter value and works with the value the destination happened to have' % (g.short, sorted(w), g.cls.replace('soplex::', ''), miss))
+    if n7 < 18:
+        raise AnalysisBroken('R17.7: only %d component setters called by the parameter setters found' % n7)
 
     # ------------------------------------------------------------------ R17.4
     rep.rule('R17.4', 'no nondeterminism source in library code: rand/srand/random_device/time seeding, foreign RNG engines, unordered-container iteration', floor=2)
